@@ -25,7 +25,11 @@ from ..vhdl.parser import Unsupported, VhdlSyntaxError
 LEVEL = "exploration"
 
 FORMS = ["conc", "next", "seq", "var", "value", "push", "pushprop", "slice", "elem", "port", "ret", "ifexp", "linit_sig", "linit_var",
-         "view", "view_seq"]
+         "view", "view_seq",
+         # _x: the source is an expression RESULT (an intermediate), not a declared object; _null: the other arm of a merge is
+         # Null (arms cannot be joined into one type); port_ctx*: instance created inside a concurrent context
+         "conc_x", "seq_x", "var_x", "push_x", "port_ctx", "port_ctx_x", "ifexp_null", "ifexp_null_x", "ret_null", "ret_null_x",
+         "linit_var_merge", "linit_var_merge_x", "ifexp_x", "ret_x"]
 LIT_FORMS = ["conc", "seq", "var", "push", "init", "slice", "port", "ret", "ifexp", "view", "merge2", "ret2", "pdefault", "linit_var", "ctor"]
 
 
@@ -144,7 +148,10 @@ def render(s, t, form):
     src = S if S is not None else "self.src"
     wt = width(t)
     L = [HDR]
-    if form == "port":
+    if form.endswith("_x"):
+        src = "(self.src | self.src)"
+        form_x, form = form, form[:-2]
+    if form in ("port", "port_ctx"):
         L += ["class Sub(Entity):", f"    x = Port.input({T})", f"    y = Port.output({T})", "    def architecture(self):",
               "        @std.concurrent", "        def logic():", "            self.y <<= self.x", ""]
     L += ["class T(Entity):", "    clk = Port.input(Bit)", "    c = Port.input(Bit)"]
@@ -201,9 +208,18 @@ def render(s, t, form):
         L += [con, "        def logic():", f"            self.big[1] <<= {src}", "            self.big[0] <<= False", "            self.big[2] <<= False"]
     elif form == "port":
         L += [f"        Sub(x={src}, y=self.tgt)"]
+    elif form == "port_ctx":
+        L += [con, "        def logic():", f"            Sub(x={src}, y=self.tgt)"]
+    elif form == "ifexp_null":
+        L += [con, "        def logic():", f"            self.tgt <<= {src} if self.c else Null"]
+    elif form == "ret_null":
+        L += ["        def f():", "            if self.c:", f"                return {src}", "            return Null",
+              seq, "        def logic():", "            self.tgt <<= f()"]
+    elif form == "linit_var_merge":
+        L += [seq, "        def proc():", f"            v = Variable[{T}]({src} if self.c else Null)", "            self.tgt <<= v"]
     elif form == "ret":
         L += ["        def f():", "            if self.c:", f"                return {src}", "            return self.alt",
-              con, "        def logic():", "            self.tgt <<= f()"]
+              seq, "        def logic():", "            self.tgt <<= f()"]
     elif form == "ifexp":
         L += [con, "        def logic():", f"            self.tgt <<= {src} if self.c else self.alt"]
     elif form == "merge2":
@@ -211,7 +227,7 @@ def render(s, t, form):
         L += [con, "        def logic():", f"            self.tgt <<= self.nar if self.c else {src}"]
     elif form == "ret2":
         L += ["        def f():", "            if self.c:", "                return self.nar", f"            return {src}",
-              con, "        def logic():", "            self.tgt <<= f()"]
+              seq, "        def logic():", "            self.tgt <<= f()"]
     elif form == "pdefault":
         L += [seq, "        def proc():", "            if self.c:", "                self.tgtd <<= self.alt", con, "        def pub():", "            self.tgt <<= self.tgtd"]
     elif form == "ctor":
@@ -233,8 +249,15 @@ def applicable(s, t, form):
         return t[0] in ("Unsigned", "Signed") and t[1] >= 2
     if form in ("pdefault", "ctor"):
         return s[0] in ("int", "Null", "Full", "True", "False")
-    if form in ("push", "pushprop") and t == ("bool",):
-        return True
+    if form.endswith("_x"):
+        # expression sources: objects of vector / Bit type (`x | x` has the type and value of x)
+        if s[0] not in ("Bit", "BitVector", "Unsigned", "Signed"):
+            return False
+        return applicable(s, t, form[:-2])
+    if form in ("ifexp_null", "ret_null", "linit_var_merge"):
+        return is_vec(t) and s[0] not in ("int", "Null", "Full", "True", "False")
+    if form == "port_ctx":
+        return s[0] not in ("int", "Null", "Full", "True", "False")
     return True
 
 
@@ -256,7 +279,10 @@ def analyse(s, t, form):
         out["problems"].append(("static-" + d.findings[0].rule, repr(d.findings[0])))
         return out
     wt = width(t)
-    clocked = form in ("seq", "var", "value", "push", "pushprop", "linit_sig", "linit_var", "view_seq", "pdefault")
+    if form.endswith("_x"):
+        form = form[:-2]
+    clocked = form in ("seq", "var", "value", "push", "pushprop", "linit_sig", "linit_var", "view_seq", "pdefault", "linit_var_merge",
+                       "ret", "ret2", "ret_null")
     is_lit = s[0] in ("int", "Null", "Full", "True", "False")
     sim = d.sim(init=dict(clk=0, c=1))
     for raw in src_values(s):
@@ -295,14 +321,27 @@ def analyse(s, t, form):
         if form in ("merge2", "ret2"):
             for a in range(1 << (wt - 1)):
                 sim.set_many({"c": 1, "nar": a})
+                if clocked:
+                    sim.clock()
                 g = sim.get("tgt")
                 if g != a:
                     out["problems"].append(("value", f"merge with c=1: target {g}, expected nar={a}"))
                     break
+        if form in ("ifexp_null", "ret_null", "linit_var_merge"):
+            # other branch: Null
+            sim.set_many({"c": 0})
+            if clocked:
+                sim.clock()
+            g = sim.get("tgt")
+            if g != 0:
+                out["problems"].append(("value", f"merge with c=0: target {g}, expected Null (0)"))
+                break
         if form in ("ret", "ifexp"):
             # other branch: alt must pass through unchanged
             for a in range(1 << wt):
                 sim.set_many({"c": 0, "alt": a})
+                if clocked:
+                    sim.clock()
                 g = sim.get("tgt")
                 g = int(g) if isinstance(g, bool) else g
                 if g != a:
@@ -330,6 +369,7 @@ def main(run: Run):
                 if applicable(l, t, f):
                     tasks.append((l, t, f))
     run.count("designs_generated", len(tasks))
+    accepted_forms = set()
     for kind, res in pmap(work, list(chunked(tasks, 40))):
         if kind != "ok":
             run.tool_error(f"worker: {res[-500:]}")
@@ -359,8 +399,12 @@ def main(run: Run):
                 run.violation(f"conv/{ident}/{rule}", f"{ident}: [{rule}] {msg}", {"source": list(s), "target": list(t), "form": f, "cohdl_source": r["src"]})
             if not r["must"] and not r["problems"]:
                 run.count("accepted_value_preserving")
+                accepted_forms.add(f)
                 if len(run.samples) < 5:
                     run.sample({"conversion": ident, "source_values_checked": r["evals"]})
+    dead = sorted({f for _, _, f in tasks} - accepted_forms)
+    if dead and not run.only:
+        run.tool_error(f"vacuous: no accepted value-preserving design for assignment form(s) {dead}")
     if run.counters.get("accepted_value_preserving", 0) < 100 or run.counters.get("pairs_in_must_reject_table", 0) < 100:
         run.tool_error("vacuous: too few accepted or too few must-reject designs")
     run.coverage_extra.update(
